@@ -205,6 +205,22 @@ Definition run_level (x : sx) : sx :=
   | _ => err "bad case"
   end.
 
+(* history leg: ( op ... ), op = ( objs so se ) with objs = ( (name mode content frame fail) ... ), fail = none | n
+   (the real reader handed to put_object fails after n bytes).  One observation per op, in order: ( write_err ) for a
+   pack with a failing source, else what the pack leg prints.  The model is pack_history: no state between packs. *)
+Definition op_fails (x : sx) : bool :=
+  match x with
+  | SL (SL objs :: _) =>
+    existsb (fun o => match nth_sx (get_L o) 4 with SN _ => true | _ => false end) objs
+  | _ => false
+  end.
+
+Definition run_history (x : sx) : sx :=
+  match x with
+  | SL ops => SL (map (fun op => if op_fails op then SL [sym "write_err"] else run_pack op) ops)
+  | _ => err "bad case"
+  end.
+
 Definition file_mode (m : option N) : N :=
   match m with Some md => N.land md 4095 | None => 384 end.
 
@@ -243,6 +259,7 @@ Definition run_extract (x : sx) : sx :=
 Definition dispatch (leg : list N) (x : sx) : sx :=
   if bytes_eqb leg (bs "pack") then run_pack x
   else if bytes_eqb leg (bs "level") then run_level x
+  else if bytes_eqb leg (bs "history") then run_history x
   else if bytes_eqb leg (bs "read") then run_read x
   else if bytes_eqb leg (bs "extract") then run_extract x
   else err "unknown leg".
